@@ -90,4 +90,43 @@ def c03(chk):
                   note=f"16 operators x pool^2 ('{pool}' pool of Pools.tla)")
 
 
-CHECKS = {"C03": c03, "C01": c01, "C02": c02, "C05": c05, "C13": c13, "C14": c14}
+def c10(chk):
+    chk.rule = ("49 builtin names x {no argument, every pool value, every ordered pair of the pair pool, triples of the triple "
+                "pool, a 4-tuple}; non-trivial = distinct calls whose reference outcome is a value")
+    chk.trusted.append("IEEE-754 hardware arithmetic, libm and Rust's float formatting / case mapping through primgen")
+    chk.assumptions.append(f"len and str::substring index in {vf.len_unit()} (probed; only their consistency is claimed)")
+    pool = "quick" if chk.tier == "quick" else "full"
+    prims = vf.make_prims("builtins", chk.outdir, pool=pool)
+    info, summ = vf.run_model("builtins_" + pool, "MC_Builtins.tla", {"PoolName": pool}, chk.outdir,
+                              workers=12 if chk.tier == "quick" else 16, env_extra={"PRIMS": prims}, timeout=3000)
+    chk.add_model(info, summ, {"builtin", "panic"}, ["builtin_nontrivial"],
+                  note=f"49 builtins x argument shapes of arity 0..4 over the '{pool}' pools of Pools.tla")
+
+
+CTX_FLOATS = [[16368, 0, 0, 0], [16384, 0, 0, 0], [16376, 0, 0, 0], [16388, 0, 0, 0]]
+CTX_PROPS = ("TypeStable", "FailedCallAtomic", "CloneIndependent", "NamespacesSeparate")
+
+
+def ctx_model(chk, size, relevant, simulate=None, workers=12, timeout=1500):
+    prims = vf.make_prims("ctx", chk.outdir, extra={"floats": CTX_FLOATS})
+    tag = f"ctx_{size}" + ("_sim" if simulate else "")
+    info, summ = vf.run_model(tag, "MC_Ctx.tla", {"Size": size, "WithSerde": False}, chk.outdir,
+                              invariants=("TypeOK",), properties=CTX_PROPS, view="View", constraint="InDomain",
+                              workers=workers, timeout=timeout, env_extra={"PRIMS": prims}, simulate=simulate)
+    chk.add_model(info, summ, relevant, ["history_len2"], exhaustive=simulate is None,
+                  note=f"MC_Ctx.tla size={size}: all reachable abstract context states x all operations"
+                       + (f"; random walks {simulate}" if simulate else ""))
+
+
+def c04(chk):
+    chk.rule = ("every transition of the abstract context state graph (two slots, clone, every operation incl. the nine "
+                "assignment operators x every value type) with a shortest history reaching its source state; "
+                "non-trivial = distinct histories of at least two operations")
+    if chk.tier == "quick":
+        ctx_model(chk, "small", {"history", "panic"})
+    else:
+        ctx_model(chk, "small", {"history", "panic"}, workers=16)
+        ctx_model(chk, "full", {"history", "panic"}, simulate=(3000, 40))
+
+
+CHECKS = {"C04": c04, "C10": c10, "C03": c03, "C01": c01, "C02": c02, "C05": c05, "C13": c13, "C14": c14}
